@@ -166,6 +166,7 @@ static void rec(const char *name, long rc, int ok)
     RES->rets[i].ok = ok;
     RES->nrets = i + 1;
 }
+static int opt_rec(const char *name, long rc) { rec(name, rc, rc != FAIL ? 1 : 2); return rc != FAIL; }
 static void hdata(const void *p, long n)
 {
     if (!recording) return;
@@ -181,6 +182,10 @@ static void hdata(const void *p, long n)
 #define TV(var, name, expr)  do { (var) = (expr); rec(name, (long)(var), (var) != FAIL); if ((var) == FAIL) goto done; } while (0)
 #define TN(name, expr, n)    do { long _r = (long)(expr); rec(name, _r, _r == (long)(n)); if (_r != (long)(n)) goto done; } while (0)
 #define E(var, name, fn)     do { if ((var) != FAIL) { long _r = (long)fn(var); rec(name, _r, _r != FAIL); (var) = FAIL; if (_r == FAIL) goto done; } } while (0)
+/* OPT: a call that may legitimately return FAIL in the fault-free run too (e.g. "no fill value set", "not found"):
+   recorded with flag 2 when it fails; the parent counts it as a visible failure unless the fault-free run failed at
+   the same place.  Evaluates to true when the call delivered a value. */
+#define OPT(name, expr)      (opt_rec(name, (long)(expr)))
 #define FIN(var, name, fn)   do { if ((var) != FAIL) { long _r = (long)fn(var); rec(name, _r, _r != FAIL); (var) = FAIL; } } while (0)
 
 static unsigned char pat[4096];
@@ -595,6 +600,8 @@ static void wl_sd_cread(const char *p) { prep(wl_sd_chunk, p); wl_sd_read_body(p
 static void wl_gr_read(const char *p) { prep(wl_gr_write, p); wl_gr_read_body(p); }
 static void wl_an_read(const char *p) { prep(wl_an_write, p); wl_an_read_body(p); }
 
+#include "drive_fault_wl2.h"
+
 static struct { const char *name; void (*fn)(const char *); } WL[] = {
     {"h_put", wl_h_put}, {"h_putc", wl_h_putc}, {"h_put16", wl_h_put16}, {"h_linked", wl_h_linked},
     {"h_linkedc", wl_h_linkedc}, {"h_update", wl_h_update}, {"h_updatec", wl_h_updatec}, {"h_read", wl_h_read},
@@ -602,6 +609,9 @@ static struct { const char *name; void (*fn)(const char *); } WL[] = {
     {"sd_write", wl_sd_write}, {"sd_chunk", wl_sd_chunk}, {"sd_update", wl_sd_update}, {"sd_read", wl_sd_read},
     {"sd_cread", wl_sd_cread}, {"gr_write", wl_gr_write}, {"gr_read", wl_gr_read},
     {"an_write", wl_an_write}, {"an_read", wl_an_read},
+    {"sd_dims", wl_sd_dims}, {"sd_inq", wl_sd_inq}, {"sd_cinq", wl_sd_cinq}, {"h_special", wl_h_special},
+    {"h_inq", wl_h_inq}, {"v_attr", wl_v_attr}, {"v_inq", wl_v_inq}, {"v_inq1", wl_v_inq1},
+    {"gr_more", wl_gr_more}, {"gr_inq", wl_gr_inq}, {"gr_inq1", wl_gr_inq1},
 };
 #define NWL ((int)(sizeof WL / sizeof WL[0]))
 
@@ -724,8 +734,11 @@ int main(int argc, char **argv)
         printf("%ld wl=%s mode=%s k=%ld k2=%ld var=%d status=%s ncalls=%ld nfaults=%ld fkind=%c rets=", ln, wl, md, k, job_k2,
                var, o.status, o.res.ncalls, o.res.nfaults, fk);
         for (int i = 0; i < o.res.nrets; i++) {
-            printf("%s%s:%ld:%d", i ? "," : "", o.res.rets[i].name, o.res.rets[i].rc, o.res.rets[i].ok);
-            if (!o.res.rets[i].ok) allok = 0;
+            int ok = o.res.rets[i].ok;
+            if (ok == 2)     /* optional call failed: fine iff the fault-free run fails at the same place */
+                ok = i < b->res.nrets && b->res.rets[i].ok == 2 && !strcmp(b->res.rets[i].name, o.res.rets[i].name);
+            printf("%s%s:%ld:%d", i ? "," : "", o.res.rets[i].name, o.res.rets[i].rc, ok);
+            if (!ok) allok = 0;
         }
         long fd = imgdiff(b->img, o.img);
         char where[400] = "";
